@@ -113,6 +113,8 @@ def case_runs(quick):
         ("flags3", dict(n=3, flags=FLAGS_SMALL if quick else FLAGS_64)),
         ("listsT", dict(n=3, flags=(0, 1, 2, 3), tin=(1, 2), tout=(1, 2))),
         ("listsO", dict(n=3, flags=(0, 128), act=(1, 2), bsk=(0, 1, 2))),
+        # pairs across stages too (a finalised copy against a shorter or longer one): no grouping involved
+        ("listsO2", dict(n=2, flags=(0, 128), act=(1, 2), bsk=(0, 1, 2), stage=False)),
         ("four", dict(n=4, opt=("o1",), flags=(131,) if quick else (3, 131))),
     ]
     return runs
@@ -128,7 +130,9 @@ def emit_cases(ctx, d, path, only=None):
                 continue
             cfg = "Cases_%s.cfg" % kind
             # no invariant here: the theorems were checked on these universes by model_check
-            write_cfg(os.path.join(d, cfg), kind=kind, invariants=(), **kw)
+            kw = dict(kw)
+            st = kw.pop("stage", True)
+            write_cfg(os.path.join(d, cfg), kind=kind, invariants=(), stage=st, **kw)
             r = lib.tlc(ctx, d, "MC_PcztCases", cfg, workers=1, timeout=2400, coverage=False)
             lib.account_tlc(ctx, r)
             for t in r.prints("TREES"):
